@@ -290,3 +290,78 @@ func (s *Sim) Shutdown() {
 		}
 	}
 }
+
+// Adopt puts an already constructed context under the scheduler: its fairness counter becomes the
+// gate and its recorder the scheduler's. Whoever runs the context (a deployment's own Run code)
+// reports the end of Run with NoteExit. AwaitFirst waits until the instance parks at its first label.
+func (s *Sim) Adopt(name string, ctx *distsys.MPCalContext) *Instance {
+	in := &Instance{Name: name, Self: ctx.IFace().Self(), Ctx: ctx, sim: s, grant: make(chan struct{}), up: make(chan msg, 4)}
+	distsys.SetFairnessCounter(gate{in})(ctx)
+	distsys.SetTraceRecorder(rec{in})(ctx)
+	s.Insts = append(s.Insts, in)
+	return in
+}
+
+// NoteExit reports that the adopted instance's Run returned.
+func (in *Instance) NoteExit(err error) { in.up <- msg{exited: true, err: err} }
+
+// AwaitFirst waits for an adopted instance to reach its first label.
+func (s *Sim) AwaitFirst(in *Instance) error {
+	if st := s.await(in); st.Kind == Stuck {
+		return fmt.Errorf("instance %s did not reach its first label", in.Name)
+	} else if st.Kind == Exited {
+		return fmt.Errorf("instance %s ended before its first label: %v", in.Name, st.Err)
+	}
+	return nil
+}
+
+// ShutdownParallel stops all live instances at once (for deployments whose clean-up is slow: TCP
+// mailboxes sleep in Close). Environment decisions are no longer drawn (Closing); attempts granted
+// here run concurrently, so every check must be finished before this is called.
+func (s *Sim) ShutdownParallel() {
+	s.Closing = true
+	for _, in := range s.Insts {
+		if in.pending != nil {
+			in.pending.reply <- 0
+			in.pending = nil
+		}
+	}
+	done := make(chan struct{}, len(s.Insts))
+	k := 0
+	for _, in := range s.Insts {
+		if !in.Live {
+			continue
+		}
+		k++
+		in := in
+		go func() {
+			defer func() { done <- struct{}{} }()
+			stopped := make(chan struct{})
+			go func() { in.Ctx.Stop(); close(stopped) }()
+			deadline := time.After(s.Watchdog)
+			for {
+				select {
+				case <-stopped:
+					// Stop returns once Run has ended and cleaned up (whoever runs the context may report later or never)
+					in.Live = false
+					return
+				case in.grant <- struct{}{}:
+				case m := <-in.up:
+					if m.ask != nil {
+						m.ask.reply <- 0
+					}
+					if m.exited {
+						in.Live = false
+						in.Err = m.err
+						return
+					}
+				case <-deadline:
+					return
+				}
+			}
+		}()
+	}
+	for ; k > 0; k-- {
+		<-done
+	}
+}
